@@ -58,9 +58,9 @@ type Thread struct {
 	gate    chan struct{}
 	exited  chan struct{}
 	op      op
-	state   uint8 // 0 parked at op, 1 running, 2 finished
-	granted bool  // cond signalled / rlock pre-admitted
-	Lib     bool  // started by library code through Go()
+	state   uint8  // 0 parked at op, 1 running, 2 finished
+	granted bool   // cond signalled / rlock pre-admitted
+	Lib     bool   // started by library code through Go()
 	nops    uint64 // operations performed so far (its position)
 	th      uint64 // hash of its own operation history
 }
@@ -90,55 +90,55 @@ func (s Status) String() string {
 
 // Point is one recorded decision with more than one alternative.
 type Point struct {
-	N      int  // number of alternatives
-	Chosen int  // index taken
-	Data   bool // data choice (Choose / select case) rather than thread choice
+	N       int  // number of alternatives
+	Chosen  int  // index taken
+	Data    bool // data choice (Choose / select case) rather than thread choice
 	Preempt bool // a non-zero thread choice here switches away from a still-enabled running thread
-	Free   bool // non-zero choices cost nothing (select among ready cases)
+	Free    bool // non-zero choices cost nothing (select among ready cases)
 }
 
 // Sched is one execution.
 type Sched struct {
-	threads  []*Thread
-	cur      *Thread
-	prefix   []int
-	Points   []Point
-	Steps    int
-	Horizon  int
-	Status   Status
-	PanicVal interface{}
-	PanicStk string
-	FailMsg  string
-	Blocked  bool // some thread was at some decision disabled
-	Trace    uint64
-	done     chan struct{}
-	finished bool
-	aborting bool
-	inspect  bool
-	epoch    uint32
-	nobj     int
-	closed   map[uintptr]bool
+	threads   []*Thread
+	cur       *Thread
+	prefix    []int
+	Points    []Point
+	Steps     int
+	Horizon   int
+	Status    Status
+	PanicVal  interface{}
+	PanicStk  string
+	FailMsg   string
+	Blocked   bool // some thread was at some decision disabled
+	Trace     uint64
+	done      chan struct{}
+	finished  bool
+	aborting  bool
+	inspect   bool
+	epoch     uint32
+	nobj      int
+	closed    map[uintptr]bool
 	Invariant func() error
-	Paranoid bool
+	Paranoid  bool
 	// FineMode turns the statement-level points the rewriter inserted into the library code into real
 	// schedule points, so that interleavings INSIDE unprotected or wrongly protected code are explored
 	// (lock misuse, narrowed critical sections).  The state cache must be off in this mode: it assumes
 	// data-race freedom.
 	FineMode bool
 	// Nondet is set when a replayed prefix asks for a choice that does not exist.
-	Nondet string
-	enbuf  []*Thread
-	Log    []string
+	Nondet  string
+	enbuf   []*Thread
+	Log     []string
 	KeepLog bool
 	// Key is the happens-before fingerprint of the execution so far: the sum over all synchronisation
 	// objects of a hash of the sequence of (thread, position) operations performed on it, plus every
 	// thread's own history hash.  Two prefixes with the same fingerprint are Mazurkiewicz-equivalent
 	// (same per-object operation orders), hence reach the same state of a data-race-free program.
-	Key     uint64
-	chanH   map[uintptr]*uint64
+	Key   uint64
+	chanH map[uintptr]*uint64
 	// Visit, if set, is asked at every scheduling decision beyond the replayed prefix whether the state
 	// (fingerprint incl. running thread) was explored before; true ends the execution as Pruned.
-	Visit   func(s *Sched, key uint64) bool
+	Visit func(s *Sched, key uint64) bool
 }
 
 var (
